@@ -239,6 +239,25 @@ func check(c Case, o *pbt.Obs) *pbt.Failure {
 		if failed > 0 {
 			o.Label("success-after-failed-lookup")
 		}
+		if !anyFaulty {
+			// asking again changes nothing: the same Dataset object answers the same sums a second and a third time
+			for again := 2; again <= 3; again++ {
+				ctx2, cancel2 := context.WithTimeout(context.Background(), 10*time.Second)
+				l2, b2, err2 := asker.Dataset.SizeInfo(ctx2)
+				cancel2()
+				if err2 == context.DeadlineExceeded {
+					o.Label("deadline-without-failure(inconclusive)")
+					return nil
+				}
+				if err2 != nil && len(movedFrom) > 0 {
+					break // a stale asker may pick the node that no longer hosts the partition: failing is what the statement asks for
+				}
+				if err2 != nil || l2 != wantLen || b2 != wantBytes {
+					return pbt.Failf("C17:wrong-sum", "%s: call %d of SizeInfo on the same dataset returned (%d items,%d bytes,%v), the first call and the sum over partitions are (%d,%d)", desc, again, l2, b2, err2, wantLen, wantBytes)
+				}
+			}
+			o.Label("asked-three-times")
+		}
 	} else if err == context.DeadlineExceeded && failed == 0 {
 		// the harness deadline fired although nothing failed (slow machine): inconclusive, never a violation
 		o.Label("deadline-without-failure(inconclusive)")
@@ -283,7 +302,7 @@ func renderCalls(cs []*lite.InfoCall) string {
 func TestSizeInfo(t *testing.T) {
 	pbt.Run(t, pbt.Prop[Case]{
 		ID: "C17", Name: "TestSizeInfo",
-		Rule: "rapid-generated layer-B0 clusters (1-4 simulated nodes with the repository's Dataset objects, 1-8 partitions with generated replica sets, 0-9 items per partition, generated asking node, per-node PartitionInfo behaviour ok/delay/error (plain or gRPC status Canceled/Unknown/DeadlineExceeded/Internal/Unavailable)/hang via in-memory DataManager client shims that call the real server; in a quarter of the cases 1-2 partitions have moved off one of their hosts - the former host learned it through its catalogue, as a snapshot or as log entries, the asker still has the old replica list - and were written to afterwards); oracle: on success (len,bytes) equal the sums over partitions of the harness-known sizes, whatever lookups happened; an error is accepted only if some consulted lookup failed or some peer is unreachable (no client, no address); non-trivial = >=2 partitions remote to the asking node; distinct = distinct case JSON",
+		Rule:  "rapid-generated layer-B0 clusters (1-4 simulated nodes with the repository's Dataset objects, 1-8 partitions with generated replica sets, 0-9 items per partition, generated asking node, per-node PartitionInfo behaviour ok/delay/error (plain or gRPC status Canceled/Unknown/DeadlineExceeded/Internal/Unavailable)/hang via in-memory DataManager client shims that call the real server; in a quarter of the cases 1-2 partitions have moved off one of their hosts - the former host learned it through its catalogue, as a snapshot or as log entries, the asker still has the old replica list - and were written to afterwards); oracle: on success (len,bytes) equal the sums over partitions of the harness-known sizes, whatever lookups happened; an error is accepted only if some consulted lookup failed or some peer is unreachable (no client, no address); non-trivial = >=2 partitions remote to the asking node; distinct = distinct case JSON",
 		Gen:   genCase,
 		Check: check,
 	})
